@@ -110,6 +110,40 @@ theorem auth_edges_have_prompt : ∀ l ∈ loaded, authEdgesOk l.d = true := by 
 its required argument of the right type; `acquire-priv` targets exist -/
 theorem onx_wellformed : ∀ l ∈ loaded, onxWellformed l.d = true := by decide +kernel
 
+/-- `onx_acquire_uses_runtime_default`: for every step list and every pair of defaults, an
+`acquire-priv` step that names no (string) target acquires the driver's RUN-TIME default desired
+level — whatever the definition's own default is. With a user `WithDefaultDesiredPriv x` layered
+on top of a definition the run-time default is `x`, so Open and Close steer to `x`. -/
+theorem onx_acquire_uses_runtime_default (r : String) (s : Step)
+    (hop : s.get "operation" = some (.str opAcquirePriv)) (ht : isStr (s.get "target") = false) :
+    onxAction r s = .acquire r := by
+  unfold onxAction
+  rw [hop]
+  have h1 : (opAcquirePriv == opChannelWrite) = false := by decide
+  have h2 : (opAcquirePriv == opChannelReturn) = false := by decide
+  simp only [h1, h2, beq_self_eq_true, if_true, Bool.false_eq_true, if_false]
+  cases h : s.get "target" with
+  | none => rfl
+  | some v =>
+    cases v with
+    | str t => rw [h] at ht; simp [isStr] at ht
+    | _ => rfl
+
+theorem runtime_default_is_users (d : Def) (x : String) : runtimeDefault d (some x) = x := rfl
+theorem runtime_default_without_user_option (d : Def) : runtimeDefault d none = d.defaultLevel := rfl
+
+example : onxAction "exec" ⟨[("operation", .str "acquire-priv")]⟩ = .acquire "exec"
+    ∧ onxAction "exec" ⟨[("operation", .str "acquire-priv"), ("target", .str "configuration")]⟩ = .acquire "configuration" := by
+  decide
+
+/-- on the embedded definitions: with a user default `x` (any level of the definition) every level
+the on-open and on-close lists acquire is `x` or a target a step names explicitly — never the
+definition's own default unless that is `x` -/
+theorem loaded_onx_follow_user_default : ∀ l ∈ loaded, ∀ x ∈ l.d.levels,
+    ∀ steps ∈ [l.d.netOnOpen.getD [], l.d.netOnClose.getD []],
+      ∀ t ∈ acquireTargets (runNetworkOnX (runtimeDefault l.d (some x.key)) steps),
+        t = x.key ∨ t ∈ explicitTargets steps := by decide +kernel
+
 /-- the generic lists only use the two operations the generic runner executes -/
 theorem generic_onx_effective : ∀ l ∈ loaded, genericOnxEffective l.d = true := by decide +kernel
 
